@@ -325,6 +325,8 @@ class _Worker:
                             dl = SCHED.delay
                             if dl is not None and dl["task"] == _w.task and dl["at"] == k and not _w.par.abort:
                                 dl["reached"] = True
+                                co_ = frame.f_code
+                                dl["site"] = f"{co_.co_filename.rsplit('/', 1)[-1]}:{co_.co_name}:{frame.f_lineno} " + linecache.getline(co_.co_filename, frame.f_lineno).strip()[:120]
                                 _w.suspended = True
                                 _w._handback("suspend")
                                 if _w.par.abort:
